@@ -391,6 +391,14 @@ func run(c *harness.Ctx, i int) {
 		what := fmt.Sprintf("%s %s [auth %s] on %s server (via %s, writable=%v verify-write=%v uncompressed=%v auth-configured=%v/%s) -> %d", method, pc.target[:min(len(pc.target), 120)], ac.class, server, via, writable, verifyWrite, uncompressed, useAuth, authVia, resp.status)
 		c.Count("requests", 1)
 		cfg := fmt.Sprintf("w%v|v%v|u%v|a%v", writable, verifyWrite, uncompressed, useAuth)
+		// (0) a path that is no chunk and no index of the store is not answered with success by anything: whatever
+		// answers there sits next to desync's handler, in front of the authorization check and outside the store
+		// (chunk server: none of these paths names a chunk. For the index server any base name is a legal index name, a
+		// PUT of an index to /metrics stores the index "metrics"; what GET and HEAD answer there is judged by the rules below.)
+		if pc.class == "side-door" && server == "chunk" && resp.status/100 == 2 {
+			c.Violation("side-door-answered:"+server, "%s: %d bytes that are no object of the store (%.60q...)", what, len(resp.body), resp.body)
+			return
+		}
 		// (1) authorization, negative
 		if useAuth && !ac.valid && ac.class != "two-wrong-first" {
 			if len(diffs) > 0 {
